@@ -321,9 +321,6 @@ pub(crate) fn check(document: &Value, external_functions: &[String]) -> Result<(
                 }
                 continue;
             }
-            if key == "->" && (path == "END" || path == "DONE") {
-                continue;
-            }
             match index.resolve(id, path, matches!(key, "->" | "^->")) {
                 Ok(Some(target)) => {
                     if matches!(key, "->t->" | "f()" | "*" | "CNT?")
